@@ -61,6 +61,8 @@ def lst(items):
 
 
 def leaf(l):
+    if l.get("mut"):
+        return "(LMut %s)" % qid(l["q"])
     return "(LStatic %s)" % lst(nm(n) for n in (l.get("names") or [])) if l.get("static") else "LFile"
 
 
@@ -126,9 +128,10 @@ def to_case(o, tb):
         shape = lst("(%s, %s)" % (nm(m["name"]),
                                   "MSub %s" % lst("(%s, %s)" % (nm(s["name"]), leaf(s["leaf"])) for s in (m.get("sub") or []))
                                   if m["issub"] else "MLeaf %s" % leaf(m["leaf"])) for m in o["shape"])
-        ops = lst(("(ORead %s %d %d)" % (lst(nm(p) for p in (p_["path"] or [])), p_["off"], p_["cnt"])) if p_["read"]
+        ops = lst(("(OBump %s %s)" % (nm(p_["name"]), qid(p_["q"]))) if p_.get("bump") else
+                  ("(ORead %s %d %d)" % (lst(nm(p) for p in (p_["path"] or [])), p_["off"], p_["cnt"])) if p_["read"]
                   else ("(OWalk %s %s)" % (lst(nm(p) for p in (p_["path"] or [])), nm(p_["name"]))) for p_ in o["ops"])
-        res = lst("RNoDir" if r["kind"] == "nodir" else
+        res = lst("RNoDir" if r["kind"] == "nodir" else "RBump" if r["kind"] == "bump" else
                   ("(RRead %s)" % lst(ent(e) for e in (r.get("ents") or []))) if r["kind"] == "read" else
                   ("(RWalk %s %s %s)" % (coq_bool(r["ok"]), qid(r["qw"]), qid(r["qg"]))) for r in o["res"])
         return "CQids %s %s %s" % (shape, ops, res)
